@@ -253,6 +253,15 @@ def reflection_stream(ctx, n):
         T = T[1]
         if not mat_equal(ctx, "C08:reflection:matrix", desc, ans, T):
             continue
+        if np.all(harr == np.round(harr)):
+            # the mirror given with an INTEGER dtype (typed in as Line(1, 2, 1)): the same reflection
+            Hi = (g.Line if dim == 2 else g.Plane)(harr.astype(np.int64))
+            Ti = call_impl(lambda: g.reflection(Hi))
+            ctx.count("reflection:int-dtype")
+            if Ti[0] != "ok" or not proj_close_nn(np.asarray(T.array, dtype=float), np.asarray(Ti[1].array, dtype=float), 1e-9):
+                ctx.disagree("C08:reflection:int-dtype", desc + " given as int64", "the reflection of the float representative",
+                             Ti[1:3] if Ti[0] != "ok" else np.asarray(Ti[1].array).tolist(), replay=[desc])
+                continue
         p = gen.point(dim, cplx=False, inf=False)
         P = p.impl()
         y = T * P
@@ -325,6 +334,21 @@ def conics_stream(ctx, n):
                         return c, P[:3]
         c1, p1 = conic_with_points()
         c2, p2 = conic_with_points()
+        if k % 3 == 0:
+            # a frame point at infinity ON the conic: the hyperbola x y = 1 with (1:0:0) or (0:1:0), the parabola y = x^2 with (0:1:0)
+            which = rng.choice(["hyperbola", "parabola"])
+            if which == "hyperbola":
+                cc = g.Conic(np.array([[0.0, 0.5, 0.0], [0.5, 0.0, 0.0], [0.0, 0.0, -1.0]]))
+                fin = [g.Point(float(t), 1.0 / t) for t in rng.sample([1, 2, -1, -2, 4], 2)]
+                inf = g.Point(np.array(rng.choice([[1.0, 0.0, 0.0], [0.0, 1.0, 0.0]])))
+            else:
+                cc = g.Conic(np.array([[1.0, 0.0, 0.0], [0.0, 0.0, -0.5], [0.0, -0.5, 0.0]]))
+                fin = [g.Point(float(t), float(t * t)) for t in rng.sample([0, 1, 2, -1, -2], 2)]
+                inf = g.Point(np.array([0.0, 1.0, 0.0]))
+            if rng.random() < 0.5:
+                c1, p1 = cc, fin + [inf]
+            else:
+                c2, p2 = cc, fin + [inf]
         desc = f"from_points_and_conics {[np.asarray(p.array).tolist() for p in p1]} {[np.asarray(p.array).tolist() for p in p2]} {np.asarray(c1.array).tolist()} {np.asarray(c2.array).tolist()}"
         ctx.case(desc)
         ctx.count("from_points_and_conics")
